@@ -422,19 +422,19 @@ mutating;
 the pure evaluation `evalR` on the answers the world gave (`Ask.answers`), every question of that evaluation was
 answered, and the value of `evalP` is that evaluation's value;
 (3) a tree with none of the three conditions issues no call: `evalP` is `Model.eval`. -/
-theorem C03_evaluation_calls (env : Env) (tf : Int → Option Bytes) (e : Expr) (m : Msg) (fl : MFlags) :
-    Proofs.World.Calls (Proofs.EvalCallOf e) (evalP env tf e m fl) ∧
+theorem C03_evaluation_calls (env : Env) (e : Expr) (m : Msg) (fl : MFlags) :
+    Proofs.World.Calls (Proofs.EvalCallOf e) (evalP env e m fl) ∧
     (∀ c, Proofs.EvalCallOf e c → c.mutating = false) ∧
     (∀ (orcl : Nat → Call → Res) (i : Nat),
-      let as := (evalTop env tf e m fl).answers orcl i
-      (Proofs.Own.runO orcl (evalP env tf e m fl) i).1 = (evalR env tf e m fl as).1 ∧
-      (evalR env tf e m fl as).2.length = as.length ∧
-      Proofs.Own.runO orcl (askAll (evalR env tf e m fl as).2) i =
-        (as, (Proofs.Own.runO orcl (evalP env tf e m fl) i).2.1, (Proofs.Own.runO orcl (evalP env tf e m fl) i).2.2)) ∧
+      let as := (evalTop env e m fl).answers orcl i
+      (Proofs.Own.runO orcl (evalP env e m fl) i).1 = (evalR env e m fl as).1 ∧
+      (evalR env e m fl as).2.length = as.length ∧
+      Proofs.Own.runO orcl (askAll (evalR env e m fl as).2) i =
+        (as, (Proofs.Own.runO orcl (evalP env e m fl) i).2.1, (Proofs.Own.runO orcl (evalP env e m fl) i).2.2)) ∧
     (Proofs.asksFree e = true →
-      evalP (Proofs.noSys env) tf e m fl = .ret (eval env m e 0 m { ml := [], flags := fl })) :=
-  ⟨Proofs.evalP_calls_of env tf e m fl, fun _ h => h.evalCall.quiet, fun orcl i => Proofs.evalP_replay env tf e m fl orcl i,
-    fun h => Proofs.evalP_asksFree env tf e h m fl⟩
+      evalP (Proofs.noSys env) e m fl = .ret (eval env m e 0 m { ml := [], flags := fl })) :=
+  ⟨Proofs.evalP_calls_of env e m fl, fun _ h => h.evalCall.quiet, fun orcl i => Proofs.evalP_replay env e m fl orcl i,
+    fun h => Proofs.evalP_asksFree env e h m fl⟩
 
 /-- Non-vacuity of (2): `match command "t" move "/d"` against results that let every call succeed with status 0 asks
 one question, `command ["t"]`, gets the answer "status 0", and matches; the calls are those of `exec(argv, -1)`. -/
@@ -442,10 +442,10 @@ example :
     let e : Expr := .mtch 1 (.command 1 [[116]]) (.move 1 [47, 100])
     let env := Proofs.msgEnv Proofs.examplePEnv Proofs.exampleOracles [47, 109, 47, 110, 101, 119, 47, 49]
     let m := parseMessage [83, 117, 98, 106, 101, 99, 116, 58, 32, 120, 10, 10, 98, 10]
-    (evalTop env (fun _ => none) e m MFlags.empty).answers (fun _ _ => .ok 0) 0 = [.status 0] ∧
-    (evalR env (fun _ => none) e m MFlags.empty [.status 0]).2 = [.command [[116]]] ∧
-    (evalR env (fun _ => none) e m MFlags.empty [.status 0]).1.1 = .match ∧
-    ((Proofs.Own.runO (fun _ _ => .ok 0) (evalP env (fun _ => none) e m MFlags.empty) 0).2.1.map (·.1)) =
+    (evalTop env e m MFlags.empty).answers (fun _ _ => .ok 0) 0 = [.status 0] ∧
+    (evalR env e m MFlags.empty [.status 0]).2 = [.command [[116]]] ∧
+    (evalR env e m MFlags.empty [.status 0]).1.1 = .match ∧
+    ((Proofs.Own.runO (fun _ _ => .ok 0) (evalP env e m MFlags.empty) 0).2.1.map (·.1)) =
       [.openPath (ofString "/dev/null"), .fork, .waitpid, .close 0] := by
   simp only [evalP, evalR, evalTop, evalT, eval]
   decide +kernel
@@ -454,17 +454,17 @@ example :
 (`Proofs.Consistent`; in particular whenever no question is asked twice): the value of `evalP` is `eval` with the pure
 oracles these answers define (`Proofs.envOf`) - so `C03_eval_refines_spec_att`, `C10_header_cond`, `C11_*`,
 `C12_*`, `C15_*` (all stated for arbitrary oracles) hold for the evaluation of every message in every run. -/
-theorem C03_world_eval_is_eval (env : Env) (tf : Int → Option Bytes) (e : Expr) (m : Msg) (fl : MFlags)
+theorem C03_world_eval_is_eval (env : Env) (e : Expr) (m : Msg) (fl : MFlags)
     (orcl : Nat → Call → Res) (i : Nat)
-    (hc : Proofs.Consistent tf (evalR (Proofs.noSys env) tf e m fl ((evalTop (Proofs.noSys env) tf e m fl).answers orcl i)).2
-      ((evalTop (Proofs.noSys env) tf e m fl).answers orcl i)) :
-    (Proofs.Own.runO orcl (evalP (Proofs.noSys env) tf e m fl) i).1 =
-      eval (Proofs.envOf env tf (evalR (Proofs.noSys env) tf e m fl ((evalTop (Proofs.noSys env) tf e m fl).answers orcl i)).2
-        ((evalTop (Proofs.noSys env) tf e m fl).answers orcl i)) m e 0 m { ml := [], flags := fl } :=
-  Proofs.evalP_eq_eval env tf e m fl orcl i hc
+    (hc : Proofs.Consistent (evalR (Proofs.noSys env) e m fl ((evalTop (Proofs.noSys env) e m fl).answers orcl i)).2
+      ((evalTop (Proofs.noSys env) e m fl).answers orcl i)) :
+    (Proofs.Own.runO orcl (evalP (Proofs.noSys env) e m fl) i).1 =
+      eval (Proofs.envOf env (evalR (Proofs.noSys env) e m fl ((evalTop (Proofs.noSys env) e m fl).answers orcl i)).2
+        ((evalTop (Proofs.noSys env) e m fl).answers orcl i)) m e 0 m { ml := [], flags := fl } :=
+  Proofs.evalP_eq_eval env e m fl orcl i hc
 
 /-- Non-vacuity: a single question is always consistent. -/
-example (tf : Int → Option Bytes) (q : Req) (a : SysAns) : Proofs.Consistent tf [q] [a] := by
+example (q : Req) (a : SysAns) : Proofs.Consistent [q] [a] := by
   intro j k q1 q2 a1 a2 h1 h2 h3 h4 _
   have hj : j = 0 := by
     rcases j with _ | j
@@ -495,7 +495,7 @@ theorem C03_no_match_no_effect (env : PEnv) (orc : EvalOracles) (expr : Expr) (m
     (hp : pathjoin PATH_MAX md.path name = some p) (hn : strlcpyFits NAME_MAX1 name = some n)
     (hmf : flagsParse n = some mf)
     (orcl : Nat → Call → Res) (ev : Tri × St)
-    (hev : (Proofs.Own.runO orcl (evalP (Proofs.msgEnv env orc p) orc.timeFormat expr (parseMessage content) mf)
+    (hev : (Proofs.Own.runO orcl (evalP (Proofs.msgEnv env orc p) expr (parseMessage content) mf)
       (Proofs.Own.runO orcl (messageParseP d md.path name content) 0).2.2).1 = ev)
     (hno : ev.1 = .nomatch ∨ ev.1 = .error ∨
       (ev.1 = .match ∧ (matchesInterpolate (Proofs.msgEnv env orc p) ev.2.ml
